@@ -128,6 +128,7 @@ def gen_callable(r, idx, profile='mixed'):
     alias = kind == 'plain' and stack == 'none' and r.random() < 0.08
     needle = r.choice(NEEDLES)
     where = r.choice(['comment', 'docstring', 'string'])
+    nested = r.random() < 0.08          # a decorated helper nested in the body: lines that start with '@' after the first def
     base = r.choice([f'f{idx}'] * 6 + [f'__f{idx}', f'f{idx}__', f'_f{idx}'])
     name = base
     if kind not in ('plain', 'require_kwargs') and name.startswith('__'):
@@ -164,6 +165,8 @@ def gen_callable(r, idx, profile='mixed'):
             lines.append(f'{ind}# note: {needle}')
         if needle and where == 'string':
             lines.append(f'{ind}_unused = {needle!r}')
+        if nested:
+            lines.append(f'{ind}@passthru\n{ind}def _helper{idx}(): return 0')
         lines.append(f'{ind}return _BODY({idx}, locals())')
         return '\n'.join(lines) + '\n'
     retann = f' -> {ret}' if ret else ''
@@ -214,12 +217,16 @@ class Hook:
     def __init__(self):
         self.script = None
         self.journal = []
+        self.produced = None
 
     def __call__(self, idx, received):
         self.journal.append((idx, dict(received)))
         kind, obj = self.script
         if kind == 'raises':
             raise obj
+        if kind == 'retzoo':              # an object outside the value vocabulary, built when the body runs (may need the running loop)
+            self.produced = obj()
+            return self.produced
         return obj
 
 
@@ -361,9 +368,32 @@ def gen_call(r, F, desc, style=None, bad_range=8, hot=()):
     return pos, kw
 
 
+async def _noop_coro():
+    return 7
+
+
+def _done_future():
+    f = asyncio.get_running_loop().create_future()
+    f.set_result(5)
+    return f
+
+
+RESULT_ZOO = [('NotImplemented', lambda: NotImplemented), ('Ellipsis', lambda: ...), ('class', lambda: int), ('builtin', lambda: len),
+              ('exception-instance', lambda: ValueError('returned, not raised')), ('nan', lambda: float('nan')), ('bigint', lambda: 10 ** 30),
+              ('range', lambda: range(3)), ('generator-object', lambda: (x for x in [1])), ('object', lambda: object()),
+              ('lambda', lambda: (lambda: 0)), ('module', lambda: sys), ('coroutine-object', lambda: _noop_coro()),
+              ('done-future', _done_future)]
+
+
 def gen_body(r, desc):
     ret = desc['ret']
     x = r.random()
+    if (ret is None or ret == ["any"] or ret[0] == 'bare') and r.random() < 0.25:
+        # the annotation accepts everything (or is incomplete: the value is never looked at): return an object outside the vocabulary
+        k = r.randrange(len(RESULT_ZOO))
+        if RESULT_ZOO[k][0] == 'done-future' and desc['flavour'] != 'coroutine':
+            k = 0
+        return ['retzoo', k]
     if x < 0.12:
         return ['raises', r.choice(['Exception', 'BaseException', 'Pedantic', 'TypeError'])]
     want = ret if ret is not None and ret[0] not in ('bare', 'special') else K.cls_term(int)
@@ -530,8 +560,11 @@ def execute(P, F, acc, pos, kw, body):
         kw_objs = {K.name_of(k): K.build_val(t) for k, t in kw}
         if body[0] == 'raises':
             script = ('raises', make_exc(body[1]))
+        elif body[0] == 'retzoo':
+            script = ('retzoo', RESULT_ZOO[body[1]][1])
         else:
             script = ('ret', K.build_val(body[1]))
+        hook.produced = None
         out, res, journal = run_one(target, pos_objs, kw_objs, hook, script, coroutine)
         caller_objs = pos_objs + list(kw_objs.values())
         remaining = {}      # how many items every one-shot iterator argument still holds after the call (the scripted body never iterates)
@@ -543,9 +576,12 @@ def execute(P, F, acc, pos, kw, body):
         mean = [i for i, o in enumerate(caller_objs) if meaningful(o)]
         if out == 'RET':
             if acc[0] in ('propset', 'propdel'): out = 'RET'      # attribute assignment / deletion: Python drops what the function returns
+            elif script[0] == 'retzoo': out = 'RET' if res is hook.produced else 'RET:other'
             elif res is script[1]: out = 'RET'
             elif type(res).__name__ == 'GeneratorWrapper': out = 'RETGEN'
             else: out = 'RET:other'
+        if inspect.iscoroutine(hook.produced):
+            hook.produced.close()
         binding = {}
         if journal:
             for name, v in journal[0][1].items():
@@ -590,7 +626,7 @@ def build_cases(rng, n_callables, calls_per=4, profile='mixed', style=None, tag=
                     implicit = implicit_of(F['kind'], acc)
                     truth = {'realStatic': F['kind'] in ('static_class', 'static_direct'), 'realSetter': acc[0] == 'propset',
                              'realPedantic': real_pedantic(F['kind'], F.get('alias', False)), 'implicit': implicit}
-                    mbody = ['raises', 0] if body[0] == 'raises' else body
+                    mbody = ['raises', 0] if body[0] == 'raises' else (['ret', ["inst", K.IDX[K.U]]] if body[0] == 'retzoo' else body)
                     cases.append({'m': 'calllayer',
                                   'c': {'env': K.env_json(), 'fn': desc, 'truth': truth,
                                         'args': ([["inst", K.IDX[K.U]]] if implicit else []) + pos, 'kw': kw, 'body': mbody},
@@ -653,7 +689,7 @@ def run_impl_calls(cases):
 
 SIG_TEMPLATES = ['p0: int', 'p0: int, *args: int', 'p0: int = 5', 'p0: str', "p0: int, p1: str = 'd'", '*args: int', '**kwargs: int',
                  'p0: List[int]', 'p0: str, **kwargs: int', 'p0: int, *args: str, **kwargs: int', '', 'p1: int, p0: str', 'p0: int, *, k0: int = 5',
-                 'p0', 'p0: list', '*args', 'p0: int, **kwargs']
+                 'p0', 'p0: list', '*args', 'p0: int, **kwargs', 'p0: list = None', 'p0: int, p1: Dict = None', 'p0: List = []', '*args: int, k0: set = None']
 MUT_TEMPLATES = [('List[int]', '[1]', ['append', None, ["lit", ["str", [120]]]]), ('List[int]', '[]', ['append', None, ["lit", ["none"]]]),
                  ('Dict[str, int]', "{'a': 1}", ['setitem', None, ["lit", ["str", [98]]], ["lit", ["str", [99]]]]),
                  ('Dict[str, int]', '{}', ['setitem', None, ["lit", ["int", 1]], ["lit", ["int", 1]]]),
@@ -744,7 +780,7 @@ def scenario_cases(rng, n, style=None, tag='s'):
                 impl = execute(P, F, acc, pos, kw, body)
                 implicit = implicit_of(kind, acc)
                 truth = {'realStatic': False, 'realSetter': False, 'realPedantic': True, 'implicit': implicit}
-                mbody = ['raises', 0] if body[0] == 'raises' else body
+                mbody = ['raises', 0] if body[0] == 'raises' else (['ret', ["inst", K.IDX[K.U]]] if body[0] == 'retzoo' else body)
                 step = {'access': list(acc), 'kind': kind, 'flavour': flav, 'pos': pos, 'kwv': kw, 'body': body, 'pre': pre}
                 cases.append({'m': 'calllayer',
                               'c': {'env': K.env_json(), 'fn': desc, 'truth': truth,
@@ -806,7 +842,7 @@ def make_case(src, twin, access, kind, flavour, pos, kw, body):
         kw = [[K.nid(k) if isinstance(k, str) else k, v] for k, v in kw]
         truth = {'realStatic': kind in ('static_class', 'static_direct'), 'realSetter': False,
                  'realPedantic': real_pedantic(kind, False), 'implicit': implicit}
-        mbody = ['raises', 0] if body[0] == 'raises' else body
+        mbody = ['raises', 0] if body[0] == 'raises' else (['ret', ["inst", K.IDX[K.U]]] if body[0] == 'retzoo' else body)
         return {'m': 'calllayer',
                 'c': {'env': K.env_json(), 'fn': desc, 'truth': truth, 'args': ([["inst", K.IDX[K.U]]] if implicit else []) + pos, 'kw': kw, 'body': mbody},
                 'x': {'src': src, 'twin': twin, 'access': list(access), 'kind': kind, 'flavour': flavour, 'pos': pos, 'kwv': kw, 'body': body,
